@@ -17,6 +17,10 @@ pub enum Mode {
     Settings,
     FooterV2,
     FooterV3,
+    /// first header says '3', the header of the 64-bit block says '2': no extensions
+    FooterV2After3,
+    /// first header says '2', the header of the 64-bit block says '3': extensions
+    FooterV3After2,
 }
 impl Mode {
     fn name(&self) -> &'static str {
@@ -24,12 +28,16 @@ impl Mode {
             Mode::Settings => "settings",
             Mode::FooterV2 => "footer_v2",
             Mode::FooterV3 => "footer_v3",
+            Mode::FooterV2After3 => "footer_v2_after_header_v3",
+            Mode::FooterV3After2 => "footer_v3_after_header_v2",
         }
     }
     fn from(s: &str) -> Mode {
         match s {
             "footer_v2" => Mode::FooterV2,
             "footer_v3" => Mode::FooterV3,
+            "footer_v2_after_header_v3" => Mode::FooterV2After3,
+            "footer_v3_after_header_v2" => Mode::FooterV3After2,
             _ => Mode::Settings,
         }
     }
@@ -109,7 +117,7 @@ fn model(s: &[u8], mode: Mode) -> (Expect, u64) {
             let (tz, steps) = recognise(trim_ascii_ws(s), false);
             (expect_rule(&tz), steps)
         }
-        Mode::FooterV2 | Mode::FooterV3 => {
+        Mode::FooterV2 | Mode::FooterV3 | Mode::FooterV2After3 | Mode::FooterV3After2 => {
             if std::str::from_utf8(s).is_err() {
                 return (Expect::Reject, 1);
             }
@@ -120,7 +128,7 @@ fn model(s: &[u8], mode: Mode) -> (Expect, u64) {
             if t.is_empty() {
                 return (Expect::NoRule, 1);
             }
-            let (tz, steps) = recognise(t, mode == Mode::FooterV3);
+            let (tz, steps) = recognise(t, matches!(mode, Mode::FooterV3 | Mode::FooterV3After2));
             (expect_rule(&tz), steps)
         }
     }
@@ -134,6 +142,13 @@ fn run_impl(s: &[u8], mode: Mode) -> Result<Result<TimeZone, String>, String> {
         }
         Mode::FooterV2 => TimeZone::from_tz_data(&footer_file(b'2', s)).map_err(|e| format!("{e:?}")),
         Mode::FooterV3 => TimeZone::from_tz_data(&footer_file(b'3', s)).map_err(|e| format!("{e:?}")),
+        Mode::FooterV2After3 | Mode::FooterV3After2 => {
+            let (first, second) = if mode == Mode::FooterV2After3 { (b'3', b'2') } else { (b'2', b'3') };
+            let mut f = footer_file(first, s);
+            let hdr2 = 44 + tzif::body(&utc_block(), false).len();
+            f[hdr2 + 4] = second;
+            TimeZone::from_tz_data(&f).map_err(|e| format!("{e:?}"))
+        }
     })
 }
 
@@ -289,9 +304,9 @@ fn sweep_sentences(cyc: &Cycle, rec: &Recorder, thorough: bool) -> Tally {
     let dst_names: Vec<&str> = vec!["BBB", "<+04>", "BB", ""];
     let dst_offsets: Vec<&str> = vec!["", "4", "-4:30", "24:59:59", "25", "+"];
     let days: Vec<&str> = vec!["J1", "J59", "J60", "J365", "J0", "J366", "0", "59", "365", "366", "M1.1.0", "M12.5.6", "M13.1.0", "M1.0.0", "M1.6.0", "M1.1.7", "M1.1"];
-    let times: Vec<&str> = vec!["", "/2", "/0", "/24", "/24:59:59", "/25", "/-1", "/+2", "/167", "/-167:59:59", "/168", "/2:60"];
+    let times: Vec<&str> = vec!["", "/2", "/0", "/24", "/24:59:59", "/25", "/-1", "/+2", "/167", "/-167:59:59", "/168", "/2:60", "/1:02:03", "/1:02:03:", "/1:02:"];
     let trailing: Vec<&str> = vec!["", ",", " ", "x"];
-    let modes = [Mode::Settings, Mode::FooterV2, Mode::FooterV3];
+    let modes = [Mode::Settings, Mode::FooterV2, Mode::FooterV3, Mode::FooterV2After3, Mode::FooterV3After2];
     // (a) prefix product x small rule set
     let rules_small: Vec<String> = vec!["".into(), ",M3.2.0,M11.1.0".into(), ",J1/0,J365/24".into(), ",0/-1,365/25".into(), ",M3.2.0".into(), "M3.2.0,M11.1.0".into()];
     let mut list: Vec<String> = vec![];
